@@ -290,6 +290,7 @@ partial def evErrName : EvErr → String
   | .opInternal o => s!"opInternal:{opName o}"
   | .opWrongTypes o => s!"opWrongTypes:{opName o}"
   | .divideNaN => "divideNaN"
+  | .remUndefined => "remUndefined"
   | .greaterUnsupported => "greaterUnsupported"
   | .internal => "internal"
   | .illegalResultArray => "illegalResultArray"
@@ -429,11 +430,9 @@ def dump (st : St Float) (result : Option Ref) (poisoned : List Nat) : String :=
 /-! ### running steps -/
 
 def panicName : PanicSite → String
-  | .remByZero => "rem-by-zero" | .remOverflow => "rem-overflow"
-  | .absOverflow => "abs-overflow" | .parserInternal => "parser-internal"
+  | .parserInternal => "parser-internal"
 
 def lockName : LockSite → String
-  | .indexArray => "index-array" | .assign => "assign-self" | .assignUndef => "assign-undef-self"
   | .equal => "equal" | .other => "other"
 
 inductive StepOut
